@@ -67,7 +67,7 @@ def main():
     patches = a.patches.split(",") if a.patches else sorted(
         f[:-5] for f in os.listdir(os.path.join(VERIF, "benign"))
         if f.endswith(".diff"))
-    with ProcessPoolExecutor(max_workers=10) as ex:
+    with ProcessPoolExecutor(max_workers=14) as ex:
         results = list(ex.map(run_one, [(None, props)] +
                               [(p, props) for p in patches]))
     base = results[0][1]
